@@ -59,7 +59,9 @@ def compile_ext(root, variant):
     objd = os.path.join(root, "obj-" + variant)
     os.makedirs(objd, exist_ok=True)
     if variant == "sim":
-        cc = ["gcc", "-O2", "-fPIC", "-fno-builtin-malloc", "-fno-builtin-free", "-fno-builtin-realloc"]
+        # -DNDEBUG as in a normal setuptools build of the extension (CPython's own assert()s in inline macros are compiled out);
+        # the sanitizer variant below keeps assertions enabled
+        cc = ["gcc", "-O2", "-DNDEBUG", "-fPIC", "-fno-builtin-malloc", "-fno-builtin-free", "-fno-builtin-realloc"]
         ld = ["gcc", "-shared"]
         extra = []
     elif variant == "san":
